@@ -31,9 +31,29 @@ def gen_top(rng, n=None, kind=None, decorate=None, repeated=False, multi_res=Non
     if n is None:
         n = int(rng.integers(1, 40))
     if kind is None:
-        kind = ['tree', 'forest', 'cyclic', 'chain', 'star', 'ring'][int(rng.integers(0, 6))]
+        kind = ['tree', 'forest', 'cyclic', 'chain', 'star', 'ring', 'disconnected-cyclic'][int(rng.integers(0, 7))]
+    if kind == 'disconnected-cyclic' and n < 5:
+        kind = 'tree'
     if n == 1:
         edges, kind = [], 'single'
+    elif kind == 'disconnected-cyclic':
+        # several components, at least one with a ring; bond counts around n-1 are generated on purpose
+        labels = rng.permutation(n)
+        k = int(rng.integers(3, max(4, n - 1)))
+        k = min(k, n - 2)
+        parts = [labels[:k], labels[k:]]
+        if len(parts[1]) >= 4 and rng.random() < 0.4:
+            c = int(rng.integers(2, len(parts[1]) - 1))
+            parts = [parts[0], parts[1][:c], parts[1][c:]]
+        edges = []
+        for pi, part in enumerate(parts):
+            m_ = len(part)
+            if pi == 0:
+                sub = gen.ring(m_) if rng.random() < 0.6 else gen.random_connected_graph(rng, m_, 'cyclic')[1]
+            else:
+                sub = gen.random_tree(rng, m_) if rng.random() < 0.7 else gen.random_connected_graph(rng, m_, 'ring' if m_ >= 3 else 'tree')[1]
+            edges += [(int(min(part[a], part[b])), int(max(part[a], part[b]))) for a, b in sub]
+        edges = sorted(set(edges))
     elif kind == 'forest' and n >= 4:
         edges = gen.random_forest(rng, n, int(rng.integers(2, max(3, n // 2))))
     elif kind == 'forest':
